@@ -13,6 +13,10 @@ def run(out, tier, seed):
     cases, ncases, nprogs, desc = c01.corpus(out, tier, seed, wd, trace=True, light=True)
     obs = os.path.join(wd, "obs.ndjson")
     st = vlib.run_workers("run", cases, ncases, obs, timeout=20)
+    evaluate(out, obs, ncases, nprogs, st, desc)
+
+
+def evaluate(out, obs, ncases, nprogs, st, desc):
     # static, all paths
     bf, bstates, _ = vlib.validate(out.pid, "Balance", obs, chunk=1500, workers=1, check_count=False)
     # dynamic, every step
@@ -22,12 +26,28 @@ def run(out, tier, seed):
     out.cov["trace_states_dynamic"] = tstates
     c01.decide(out, obs, ("C06",), ncases, nprogs, st, "static: all paths of every built instruction stream (Balance); dynamic: every executed step (TraceVM); " + desc)
     out.cov["exhaustive"] = True
+    failing = {fl["line"] for fl in bf + tf if fl.get("prop") == "C06"}
+    origin = {}
+    if failing:
+        for ln, o in enumerate(vlib.read_ndjson(obs)):
+            if ln in failing:
+                origin[ln] = {k: o[k] for k in ("src", "ast", "input", "host", "stores") if k in o}
     for fl in bf + tf:
         if fl.get("prop") != "C06":
             continue
         why = "C06 %s [%s] %s" % ("static" if "depth" in fl else "dynamic", fl.get("store"), fl.get("why"))
-        out.fail(fl.get("kf", "NEW"), why, {k: fl.get(k) for k in ("src", "store", "why", "pc", "depth", "at", "model")}, family=why)
+        out.fail(fl.get("kf", "NEW"), why, dict({k: fl.get(k) for k in ("src", "store", "why", "pc", "depth", "at", "model")}, run_case=origin.get(fl["line"])), family=why)
 
 
 def replay(out, path):
-    raise vlib.ToolError("re-run `bin/check C06 quick`; cases are regenerated deterministically")
+    case = json.load(open(path))["case"]
+    rc = dict(case.get("run_case") or {"src": case["src"]})
+    rc["trace"] = True
+    if "ast" not in rc:
+        raise vlib.ToolError("the replay file carries no AST for the program: re-run the full check")
+    wd = vlib.workdir(out.pid)
+    cases = os.path.join(wd, "cases.ndjson")
+    vlib.write_ndjson(cases, [rc])
+    obs = os.path.join(wd, "obs.ndjson")
+    st = vlib.run_workers("run", cases, 1, obs, timeout=20)
+    evaluate(out, obs, 1, 1, st, "replay of one recorded case")
